@@ -395,6 +395,10 @@ pub fn main(args: &[String]) -> i32 {
         }
     }
     let n_regress = regress.len();
+    let only_regress = a.get("only-regress").is_some();
+    if only_regress {
+        corpus_iter = Vec::new().into_iter();
+    }
     let mut regress = regress.into_iter();
     loop {
         // the corpus is always completed (it is the verdict-bearing, seed-independent part);
@@ -405,7 +409,7 @@ pub fn main(args: &[String]) -> i32 {
             corpus_done += 1;
             (i, "corpus")
         } else {
-            if runs >= max_runs || Instant::now() >= deadline {
+            if only_regress || runs >= max_runs || Instant::now() >= deadline {
                 break;
             }
             let style = rng.below(3);
@@ -453,7 +457,7 @@ pub fn main(args: &[String]) -> i32 {
             Some(detail) => {
                 e.1 += 1;
                 c(&mut cov, &format!("inversions_seen.{}", j.kind), 1);
-                let verdict_bearing = source != "random" || clean;
+                let verdict_bearing = source != "random" || clean || only_regress;
                 if calibrate || verdict_bearing {
                     violated += 1;
                     // corpus / regress members are identified by their instance key; a random
